@@ -115,6 +115,13 @@ def do(req):
     if op == 'lex':
         lt = asm.lex_tokens(req['line'])
         return {'ok': lt.tokens}
+    if op == 'eval_twice':
+        # the same expression object evaluated at the same position under two environments (labels move between passes)
+        obj = dec(req['obj'])
+        line = asm.Line('<t>', 1, 'x')
+        r1 = obj.eval(req['position'], dec(req['env1']), line)
+        r2 = obj.eval(req['position'], dec(req['env2']), line)
+        return {'ok': [r1, r2]}
     if op == 'alias_lemma':
         # exhaustive over the REGISTERS literal: a constant defined as a register name evaluates to that register's
         # number, and the number is the same register for lookup_register (plain and compressed)
